@@ -33,7 +33,11 @@ REAL_STUB = C.REAL_STUB
 EXTRA = {
     "fb": [("bytes", ()), ("str", ())],
     "npz": [("bytes", ()), ("str", ())],
-    "tfrec": [("float64", (2,)), ("bytes", ()), ("str", ())],
+    # (the TFRecord writer refuses int16 .. uint64 for every write while its
+    # reader has entries for some of them: declarations on the edge)
+    "tfrec": [("float64", (2,)), ("bytes", ()), ("str", ()), ("int8", (2,)),
+              ("int16", (2,)), ("uint16", ()), ("uint32", (1,)),
+              ("uint64", ())],
 }
 
 
@@ -90,7 +94,8 @@ def run_case(case):
     hist = case["hist"]
     st = hist["structure"]
     decls = sorted({a["dtype"] for a in st["attrs"]
-                    if a["dtype"] in ("bytes", "str", "float64")})
+                    if a["dtype"] in ("bytes", "str", "float64", "int16",
+                                      "uint16", "uint32", "uint64")})
     state = {"accepted_bad": []}
     target = st["attrs"][case.get("bad_attr", 0) % len(st["attrs"])]
     nbad_total = sum(1 for s in hist["sessions"] for w in s.get("writes", [])
@@ -140,6 +145,37 @@ def run_case(case):
                 f"{st['fmt']} declarations {[(a['dtype'], a['shape']) for a in st['attrs']]}"
                 f" accepted bad writes {state['accepted_bad']}: "
                 f"{type(e).__name__}: {str(e)[:160]}", key=key) from e
+        # a rejected write leaves no trace in the shard labels either: every
+        # recorded label is the metadata of an accepted write of an example
+        # stored in that shard, and accepted examples lie under their label
+        n_rej = sum(len(v) for v in hr.model.rejected.values())
+        # (ids of accepted odd writes may not decode, so with such writes in
+        # the history a label cannot be attributed; those cases are skipped)
+        attributable = n_rej > 0 and not accepted
+        by_id = {r.id: r for recs in hr.model.committed.values()
+                 for r in recs}
+        for sh in (esess.shards_with_ids(hr) if attributable else ()):
+            metas = [by_id[i].meta for i in sh["ids"]
+                     if i in by_id and by_id[i].meta]
+            if sh["meta"] and sh["meta"] not in metas:
+                raise Violation(
+                    "C18", "rejected_write_left_its_metadata_on_a_shard",
+                    f"{st['fmt']}: shard {sh['path']} is labelled "
+                    f"{sh['meta']}, the accepted writes stored in it carried "
+                    f"{metas[:3]} (rejected writes: {n_rej}, kind "
+                    f"{kind})", key=key)
+            stats["shard_labels_checked"] += 1
+            for i in sh["ids"]:
+                r = by_id.get(i)
+                if r is None or not r.meta:
+                    continue
+                if r.meta != sh["meta"]:
+                    raise Violation(
+                        "C18", "label_wrong_after_bad_write",
+                        f"{st['fmt']}: example {i} written with {r.meta} "
+                        f"lies in shard {sh['path']} labelled {sh['meta']} "
+                        f"(rejected writes: {n_rej}, kind {kind})",
+                        key=key)
         try:
             fresh = hr.sio.Dataset(hr.root)
             fresh.check(show_progressbar=False)
